@@ -44,9 +44,10 @@
           totality in its components "next set has power" / "own set has power when the header is for the
           voting height" / (model only) "next set lists a key": [C09X_local_ph_side_condition_needed];
           needed for the invariant INV in its component "block hash correct":
-          [C05Act_local_ph_keeps_chain_invariant_refuted].  For the remaining components (next set
-          consistent, height + 1 < 2^64, extends the committing header) necessity for TOTALITY is not
-          shown; they are what the chain invariant [cinv] states of every held proposal;
+          [C05Act_local_ph_keeps_chain_invariant_refuted]; likewise "next set consistent" and "extends the
+          committing header": [C09X_local_ph_side_condition_needed_for_chain_invariant] (needed for the
+          invariant; necessity for TOTALITY not shown).  "height + 1 < 2^64" is [op_bounded], asked of
+          peers' headers as well;
       (d) for the operation delivered LAST nothing is assumed, except that a crash interrupts an operation
           that is admissible for the result it returns ([crash_adm]; a crash in the middle of an
           inadmissible operation may leave stores behind on which NewKernel fails). *)
@@ -372,3 +373,18 @@ Theorem C09X_local_ph_side_condition_needed :
      mstep_panic_site s (MK XRestart) = None /\ mstep s (MK XRestart) = Panic site /\ ~ In site named_sites).
 Proof. exact local_ph_side_condition_needed. Qed.
 Print Assumptions C09X_local_ph_side_condition_needed.
+
+(** the other components of the side condition (block hash correct, next validator set consistent, extends the
+    committing header) are what the chain invariant says of each proposal the voting view holds: a local header
+    violating one of them enters the voting view and falsifies [cinv] (part of INV, which every totality proof
+    uses).  Not shown: that such a header can make a later operation panic. *)
+Theorem C09X_local_ph_side_condition_needed_for_chain_invariant :
+  (exists s p, mreachable_0 1 ex_vs s /\ In p (v_phs (k_vot (ms_k s))) /\
+     hd_ok (ph_hdr p) = false /\ ~ cinv 1 ex_vs (ms_k s)) /\
+  (exists s p, mreachable_0 1 ex_vs s /\ In p (v_phs (k_vot (ms_k s))) /\
+     vs_ok (hd_next (ph_hdr p)) = false /\ ~ cinv 1 ex_vs (ms_k s)) /\
+  (exists s p ch, mreachable_0 1 ex_vs s /\ In p (v_phs (k_vot (ms_k s))) /\
+     k_chdr (ms_k s) = Some ch /\ hd_height (ph_hdr p) = 2 /\ hd_prev (ph_hdr p) <> hd_hash ch /\
+     ~ cinv 1 ex_vs (ms_k s)).
+Proof. exact local_ph_components_needed_for_cinv. Qed.
+Print Assumptions C09X_local_ph_side_condition_needed_for_chain_invariant.
